@@ -242,6 +242,24 @@ func (r *c09run) searcher(id int, seed uint64, lazy bool, stop <-chan struct{}, 
 			return
 		default:
 		}
+		if g.R.IntN(50) == 0 {
+			// a composite one of whose sub-queries cannot be answered (a property the schema does not
+			// have) next to sub-queries that still walk the graph: the request may fail, the process
+			// must not - the siblings still read through this request's storage transaction
+			bad := models.Query{Property: "nosuch", Integer: &models.SearchIntegerOptions{Value: 1, Operator: models.OperatorEquals}}
+			slow := func() models.Query {
+				return models.Query{Property: "vec", VectorVamana: &models.SearchVectorVamanaOptions{Vector: g.Vector(6, models.DistanceEuclidean), Operator: models.OperatorNear, SearchSize: 75, Limit: 75}}
+			}
+			fq := models.Query{Property: "_or", Or: []models.Query{bad, slow(), slow()}}
+			if g.R.IntN(2) == 0 {
+				fq = models.Query{Property: "_and", And: []models.Query{slow(), bad, slow()}}
+			}
+			if _, err := r.s.Shard.SearchPoints(models.SearchRequest{Query: fq, Limit: 10}); err != nil {
+				r.res.Stat("composites_with_a_failing_sub_query_answered_with_an_error", 1)
+			}
+			r.res.Stat("composites_with_a_failing_sub_query", 1)
+			continue
+		}
 		var q models.Query
 		var filter *models.Query
 		if g.R.IntN(3) == 0 {
@@ -547,6 +565,69 @@ func (c09) RunCase(c fw.Case, env *fw.Env) *fw.CaseResult {
 		for id, d := range m2.Docs {
 			m.Docs[id] = d
 		}
+	}
+	// ---- contested inserts: two clients insert at the same moment batches that have one fresh id in
+	// common. Storage admits one write at a time, so one of the two finds the id stored and is refused
+	// as a whole; exactly one batch ends up stored (the final comparison with the model sees leftovers).
+	for round := 0; round < 6; round++ {
+		shared := g.NewId()
+		ops := make([]gen.Op, 2)
+		for k := range ops {
+			ops[k] = gen.Op{Kind: gen.OpInsert, Tag: "contested-insert"}
+			n := 5 + g.R.IntN(120)
+			at := g.R.IntN(n)
+			for i := 0; i < n; i++ {
+				id := g.NewId()
+				if i == at {
+					id = shared
+				}
+				ops[k].Points = append(ops[k].Points, model.Point{Id: id, Doc: g.Doc()})
+			}
+			stamp(g, &ops[k])
+		}
+		errs := make([]error, 2)
+		calls, rets := make([]int64, 2), make([]int64, 2)
+		var cw sync.WaitGroup
+		startGate := make(chan struct{})
+		for k := range ops {
+			cw.Add(1)
+			go func(k int) {
+				defer cw.Done()
+				<-startGate
+				calls[k] = r.now()
+				errs[k] = s.Insert(ops[k].Points)
+				rets[k] = r.now()
+			}(k)
+		}
+		close(startGate)
+		cw.Wait()
+		res.Stat("contested_insert_rounds", 1)
+		res.Eval(true, "contested-insert", round, len(ops[0].Points), len(ops[1].Points))
+		switch {
+		case errs[0] == nil && errs[1] == nil:
+			res.Violate("outcome", "C09:contested-insert-both-accepted", fmt.Sprintf("two concurrent insert batches (%d and %d points) sharing the id %s were both accepted", len(ops[0].Points), len(ops[1].Points), shared), nil)
+		case errs[0] != nil && errs[1] != nil:
+			res.Violate("outcome", "C09:contested-insert-both-refused", fmt.Sprintf("two concurrent insert batches sharing one fresh id were both refused: %v / %v", errs[0], errs[1]), nil)
+		}
+		for k := range ops {
+			if errs[k] != nil {
+				continue
+			}
+			if errs[1-k] == nil && k == 1 {
+				break // both accepted (reported above): the model follows the first
+			}
+			m.Insert(ops[k].Points)
+			r.commits.Add(1)
+			evs := []c09Event{}
+			for _, p := range ops[k].Points {
+				v, _ := verOf(p.Doc)
+				evs = append(evs, c09Event{client: 200 + k, in: c09Op{kind: "write", key: p.Id.String(), ver: v}, call: calls[k], ret: rets[k]})
+			}
+			r.record(evs...)
+		}
+		liveMu.Lock()
+		liveIds = m.SortedIds()
+		liveMu.Unlock()
 	}
 	// let the searchers overlap the tail, then stop them
 	time.Sleep(20 * time.Millisecond)
